@@ -31,11 +31,34 @@ def scratch():
     return d
 
 
+_SNAP = []
+
+
+def verif_snapshot():
+    """A private copy of the machinery as it is now, so that editing /verif
+    while a sensitivity run is in progress cannot change what that run
+    executes.  Removed at exit."""
+    if not _SNAP:
+        import atexit
+        d = tempfile.mkdtemp(prefix='verif-snap-')
+        for name in ('sim', 'checks', 'verif', 'known_findings.json'):
+            src = os.path.join(ROOT, name)
+            if os.path.isdir(src):
+                shutil.copytree(src, os.path.join(d, name),
+                                ignore=shutil.ignore_patterns('__pycache__'))
+            else:
+                shutil.copy2(src, os.path.join(d, name))
+        atexit.register(shutil.rmtree, d, True)
+        _SNAP.append(d)
+    return _SNAP[0]
+
+
 def run_check(d, prop, tier='quick'):
     env = dict(os.environ, VERIF_REPO=d, VERIF_OUT=os.path.join(d, 'out'))
     t0 = time.time()
-    p = subprocess.run([os.path.join(ROOT, 'verif'), 'check', prop, '--tier',
-                        tier], env=env, capture_output=True, text=True)
+    p = subprocess.run([os.path.join(verif_snapshot(), 'verif'), 'check',
+                        prop, '--tier', tier], env=env, capture_output=True,
+                       text=True)
     return p.returncode, time.time() - t0, p.stdout
 
 
